@@ -5,6 +5,7 @@ import (
 	"go/ast"
 	"go/token"
 	"go/types"
+	"regexp"
 	"strings"
 
 	"octoverif/core"
@@ -51,32 +52,160 @@ func checkDynamicNullability(c *core.Ctx) {
 			c.OK("UNI3", key, d.TypeFn.Pos(), 1, "body never returns NULL")
 			continue
 		}
-		in := &absint.Interp{Info: t.info, Prog: c.Prog}
-		in.Hooks.Call = func(st *absint.State, call *ast.CallExpr, callee string, recv absint.Val, args []absint.Val) (absint.Val, bool) {
-			if callee == "octosql.TypeSum" && len(args) == 2 {
-				return absint.S("TypeSum(" + args[0].Canon() + "," + args[1].Canon() + ")"), true
+		// Is NULL only returned because an element of a collection argument is NULL? Interpret the body with every
+		// element of every collection argument non-NULL: if no NULL return is left, NULL results come from NULL elements
+		// only, and the computed type has to admit NULL exactly when an element type does.
+		ids := typeIDs(c.Prog)
+		elemArg := -1
+		{
+			bi := &absint.Interp{Info: t.info, Prog: c.Prog}
+			bi.Hooks.Loop = func(st *absint.State, loop ast.Stmt) *absint.LoopSpec {
+				return &absint.LoopSpec{Cases: []string{"e"}, MaxIter: 2, RefStep: func(ref, cs string) string { return ref }}
 			}
-			return nil, false
+			bi.Hooks.Field = func(st *absint.State, base absint.Val, sel string) (absint.Val, bool) {
+				if sel != "TypeID" {
+					return nil, false
+				}
+				if m := elemOfArgRE.FindStringSubmatch(base.Canon()); m != nil {
+					k := int(m[1][0] - '0')
+					if elemArg == -1 || elemArg == k {
+						elemArg = k
+						return absint.Int(ids["TypeIDInt"]), true
+					}
+				}
+				return nil, false
+			}
+			bi.Hooks.Call = chainCall(ctorHook(ids), errorfHook)
+			bouts, berr := runLit(bi, d.Function, nil, "")
+			nullLeft := berr != nil
+			for _, o := range bouts {
+				if o.Kind == "return" && len(o.Values) == 2 && absint.IsNilVal(o.Values[1]) && valueClass(o, ids, o.Values[0]) == "NULL" {
+					nullLeft = true
+				}
+				if o.Kind != "return" {
+					nullLeft = true
+				}
+			}
+			if nullLeft {
+				elemArg = -1
+			}
 		}
-		outs, err := runLit(in, d.TypeFn, nil, "")
-		if err != nil {
-			c.Unknown("UNI3", key, d.TypeFn.Pos(), err.Error())
+		var pname string
+		if len(d.TypeFn.Type.Params.List) == 1 && len(d.TypeFn.Type.Params.List[0].Names) == 1 {
+			pname = d.TypeFn.Type.Params.List[0].Names[0].Name
+		}
+		is, isnt := lookupConst(c.Prog, "octosql", "TypeRelationIs"), lookupConst(c.Prog, "octosql", "TypeRelationIsnt")
+		bad := ""
+		n, total := 0, 0
+		scenarios := []string{"any"}
+		if elemArg >= 0 && pname != "" {
+			scenarios = []string{"an element type admits NULL", "no element type admits NULL"}
+		}
+		for _, sc := range scenarios {
+			sc := sc
+			elemPrefix := fmt.Sprintf("%s[%d]", pname, elemArg)
+			in := &absint.Interp{Info: t.info, Prog: c.Prog}
+			loopSeen := false
+			in.Hooks.Loop = func(st *absint.State, loop ast.Stmt) *absint.LoopSpec {
+				if sc == "any" {
+					return nil
+				}
+				if rs, ok := loop.(*ast.RangeStmt); !ok || !strings.HasPrefix(core.ExprStr(rs.X), elemPrefix+".") {
+					return nil
+				}
+				loopSeen = true
+				cases := []string{"ELEM-NOTNULL"}
+				if sc == "an element type admits NULL" {
+					cases = []string{"ELEM-NULLABLE", "ELEM-NOTNULL"}
+				}
+				return &absint.LoopSpec{Cases: cases, MaxIter: 2, RefStep: func(ref, cs string) string { return ref }}
+			}
+			in.Hooks.Cond = func(st *absint.State, atom string) (bool, bool) {
+				if sc == "an element type admits NULL" && (atom == "("+elemPrefix+".List.Element != nil)" || atom == "(nil != "+elemPrefix+".List.Element)") {
+					return true, true // a list whose element type admits NULL has an element type
+				}
+				if sc == "an element type admits NULL" && (atom == "("+elemPrefix+".List.Element == nil)" || atom == "(nil == "+elemPrefix+".List.Element)") {
+					return false, true
+				}
+				return false, false
+			}
+			in.Hooks.Call = func(st *absint.State, call *ast.CallExpr, callee string, recv absint.Val, args []absint.Val) (absint.Val, bool) {
+				if callee == "octosql.TypeSum" && len(args) == 2 {
+					return absint.S("TypeSum(" + args[0].Canon() + "," + args[1].Canon() + ")"), true
+				}
+				if sc != "any" && callee == "octosql.Type.Is" && len(args) == 1 && recv.Canon() == "octosql.Null" {
+					inLoop := st.IterNow == "ELEM-NULLABLE" || st.IterNow == "ELEM-NOTNULL"
+					ofElem := strings.Contains(args[0].Canon(), elemPrefix+".")
+					if !inLoop && !ofElem {
+						return nil, false
+					}
+					nullable := st.IterNow == "ELEM-NULLABLE" || (!inLoop && sc == "an element type admits NULL")
+					if nullable {
+						st.Emit("SAW-NULLABLE-ELEMENT", call.Pos())
+						return is, true
+					}
+					return isnt, true
+				}
+				return nil, false
+			}
+			outs, err := runLit(in, d.TypeFn, nil, "")
+			if err != nil {
+				c.Unknown("UNI3", key, d.TypeFn.Pos(), err.Error())
+				bad = "-"
+				break
+			}
+			total += len(outs)
+			for _, o := range outs {
+				if o.Kind != "return" || len(o.Values) != 2 || !absint.IsTrue(o.Values[1]) {
+					continue
+				}
+				n++
+				ty := o.Values[0].Canon()
+				admits := strings.Contains(ty, "octosql.Null")
+				switch sc {
+				case "any":
+					if !admits {
+						bad = "the function body can return NULL, but a successful TypeFn path computes the result type " + ty + ", which does not admit NULL"
+					}
+				case "an element type admits NULL":
+					// a path that met a nullable element type (or, for a list, the one element type) must admit NULL
+					met := false
+					for _, e := range o.Events {
+						if e.Name == "SAW-NULLABLE-ELEMENT" {
+							met = true
+						}
+					}
+					for _, tr := range o.Trace {
+						if tr == "ELEM-NULLABLE" {
+							met = true
+						}
+					}
+					if (met || !loopSeen) && !admits {
+						bad = fmt.Sprintf("the function body returns NULL when an element of argument %d is NULL, but with an element type that admits NULL the TypeFn computes %s, which does not admit NULL", elemArg, ty)
+					}
+				}
+			}
+		}
+		if bad == "-" {
 			continue
 		}
-		bad := ""
-		n := 0
-		for _, o := range outs {
-			if o.Kind != "return" || len(o.Values) != 2 || !absint.IsTrue(o.Values[1]) {
-				continue
-			}
-			n++
-			ty := o.Values[0].Canon()
-			if !strings.Contains(ty, "octosql.Null") {
-				bad = "the function body can return NULL, but a successful TypeFn path computes the result type " + ty + ", which does not admit NULL"
-			}
+		why := "every computed result type admits NULL"
+		if elemArg >= 0 {
+			why = fmt.Sprintf("NULL is returned only for a NULL element of argument %d; the computed type admits NULL whenever an element type does", elemArg)
 		}
-		c.Decide(bad == "" && n > 0, "UNI3", key, d.TypeFn.Pos(), len(outs), "every computed result type admits NULL", bad)
+		c.Decide(bad == "" && n > 0, "UNI3", key, d.TypeFn.Pos(), total, why, bad)
 	}
+}
+
+var elemOfArgRE = regexp.MustCompile(`^values\[(\d)\]\.(?:List|Tuple|Struct)\[`)
+
+func traceHas(tr []string, s string) bool {
+	for _, t := range tr {
+		if t == s {
+			return true
+		}
+	}
+	return false
 }
 
 func runC08(c *core.Ctx) {
